@@ -537,6 +537,27 @@ static void doExecLine(vx_cmd* c)
 		e = strcmp(scheme, "bign") == 0 ? bignPubkeyCalc(Q, p, d) : bign96PubkeyCalc(Q, p, d);
 		jOct("Qx", Q, no); jOct("Qy", Q + no, no); jInt("rc", e); free(Q); free(p); free(d);
 	}
+	else if (strcmp(op, "paramsGen") == 0 && scheme)
+	{
+		/* parameter generation from the standard seed of the named set; the generated set is then validated */
+		const char* name = vxArg(c, "name");
+		if (strcmp(scheme, "stb99") == 0)
+		{
+			stb99_params* std = (stb99_params*)xalloc(sizeof(*std)); stb99_params* p = (stb99_params*)xalloc(sizeof(*p));
+			stb99_seed* s = (stb99_seed*)xalloc(sizeof(*s)); err_t e = stb99ParamsStd(std, s, name ? name : "test");
+			jInt("rcStd", e); e = stb99ParamsGen(p, s); jInt("rcGen", e);
+			if (e == ERR_OK) { putStb99(p); jInt("sameAsStd", memcmp(p->p, std->p, sizeof(p->p)) == 0 && memcmp(p->q, std->q, sizeof(p->q)) == 0 && memcmp(p->a, std->a, sizeof(p->a)) == 0); }
+			jInt("rc", e == ERR_OK ? stb99ParamsVal(p) : -1); free(s); free(p); free(std);
+		}
+		else if (strcmp(scheme, "pfok") == 0)
+		{
+			pfok_params* std = (pfok_params*)xalloc(sizeof(*std)); pfok_params* p = (pfok_params*)xalloc(sizeof(*p));
+			pfok_seed* s = (pfok_seed*)xalloc(sizeof(*s)); err_t e = pfokParamsStd(std, s, name ? name : "test");
+			jInt("rcStd", e); e = pfokParamsGen(p, s, 0); jInt("rcGen", e);
+			if (e == ERR_OK) { putPfok(p); jInt("sameAsStd", memcmp(p->p, std->p, sizeof(p->p)) == 0 && p->l == std->l && p->r == std->r); }
+			jInt("rc", e == ERR_OK ? pfokParamsVal(p) : -1); free(s); free(p); free(std);
+		}
+	}
 	else if (strcmp(op, "beltHash") == 0)
 	{
 		/* generator aid (seed search for the "b is a non-residue" class); belt-hash itself is C01's business */
